@@ -225,6 +225,13 @@ func (ex *Exec) chanSend(c *ChanV, v Value) {
 	if c.closed {
 		ex.goPanicStr("send on closed channel")
 	}
+	if len(c.takerFns) > 0 && len(c.buf) == 0 {
+		f := c.takerFns[0]
+		c.takerFns = c.takerFns[1:]
+		c.taken = append(c.taken, v)
+		ex.call(nil, f, []Value{IfaceV{t: c.elemT, v: v}}, 0)
+		return
+	}
 	if c.takers > 0 && len(c.buf) == 0 {
 		c.takers--
 		c.taken = append(c.taken, v)
@@ -241,7 +248,7 @@ func (ex *Exec) chanCanSend(c *ChanV) bool {
 	if c == nil {
 		return false
 	}
-	return c.closed || c.takers > 0 || len(c.buf) < c.cap
+	return c.closed || c.takers > 0 || len(c.takerFns) > 0 || len(c.buf) < c.cap
 }
 
 func (ex *Exec) chanCanRecv(c *ChanV) bool {
